@@ -126,6 +126,12 @@ def gen_case(rng, fam, npts, k=None):
         if k % 4 == 3:
             par = dict(a=0.0, b=1.0, default=True)
             impls = ["re.func", "re.prior", "cl.op"]
+        elif k % 4 == 1:
+            # special values around the (0.0, 1.0) fast path of `uniform_prior` (exact float comparisons in the code): the pair
+            # itself passed explicitly, and pairs sharing only one of its two values
+            a, b = [(0.0, 1.0), (0.25, 1.0), (0.0, 2.0), (-1.0, 1.0), (0.0, 0.5), (1.0, 2.0), (-1.0, 0.0), (0.5, 1.0)][(k // 4) % 8]
+            par = dict(a=a, b=b)
+            impls = ["re.func", "re.prior", "re.jit", "re.array", "cl.op"]
         else:
             a = rng.choice([0.0, 1.0, -1.0]) * _lu(rng, 1e-2, 10)
             par = dict(a=a, b=a + _lu(rng, 1e-3, 1e3))
@@ -1117,6 +1123,12 @@ def run(ctx):
                 c["ship_table"] = True
                 ship += 1
             cases.append(c)
+    # every special (a, b) pair around the uniform fast path, each run (cheap: plain function and classic operator only in quick)
+    for jj in range(8):
+        c = gen_case(ctx.rng, "uniform", npts, 4 * jj + 1)
+        if ctx.quick:
+            c["impls"] = ["re.func", "cl.op"]
+        cases.append(c)
     for k in range(ctx.n(8, 200)):
         m = _lu(ctx.rng, 1e-3, 1e3)
         cases.append(dict(op="moments", mean=m, std=m * _lu(ctx.rng, 1e-3, 1e2)))
